@@ -6,12 +6,12 @@ THM = "NextestModel.Thm.C16"
 GEN = []
 TRUSTED = ["model: Model/Capture (accumulator over an abstract pipe); tokio / epoll / kernel pipes are not modelled",
            "the event-log tap records length + xxh64 of every captured stream per attempt; the expected bytes are recomputed from the scripted pattern"]
-ASSUMPTIONS = ["PARTIAL: the documented normalisations (lossy UTF-8, XML/ANSI stripping) and the combined capture mode are not checked yet"]
+ASSUMPTIONS = ["the documented normalisations (lossy UTF-8, ANSI and XML-invalid character stripping) are checked on one fixed hostile output (controls, ANSI escape, U+FFFE/U+FFFF, astral planes, private use, invalid UTF-8) against a pinned expected text; the combined capture mode is not exercised"]
 
 
 def run(seed, tier, replay=None):
     result = {"evaluations": 0, "distinct_nontrivial": 0, "rule": "", "samples": [], "traces": 0, "dist": {}, "violations": [], "broken": []}
-    attribution = lambda sc, r: [v for v in mix.mon_junit(sc, r) if v["kind"] in ("junit-attribution", "junit-xml")]
+    attribution = lambda sc, r: [v for v in mix.mon_junit(sc, r) if v["kind"] in ("junit-attribution", "junit-xml", "junit-text")]
     from props import tim
     r = mix.merge(result, mix.check([mix.mon_output, attribution], seed, tier, 8, 80))
     # output written on SIGTERM, just before a timed-out attempt exits
